@@ -256,6 +256,19 @@ def run_shard(ctx):
             class M(fsic.BaseModel):
                 pass
             check_spec(ctx, spec, cls=lambda span: _as_container(M, span))
+        if all(isinstance(l[0], str) for l in spec.labels):
+            # classes with the alias mixin: aliases apply to *names* only - a period label that happens to
+            # equal an alias (or an alias target) is still just a label
+            from fsic.extensions import AliasMixin
+            labs = [l[0] for l in spec.labels]
+            aliases = {labs[0]: 'X', labs[-1]: 'K', 'XA': 'X', 'zz': 'X'}
+            if len(labs) > 2:
+                aliases[labs[1]] = labs[2]
+            AC = type('AC', (AliasMixin, fsic.core.VectorContainer), {'ALIASES': dict(aliases)})
+            AM = type('AM', (AliasMixin, fsic.BaseModel), {'ALIASES': dict(aliases)})
+            ctx.count('alias_named_label_specs')
+            check_spec(ctx, spec, cls=AC)
+            check_spec(ctx, spec, cls=AM)
 
 
 def _as_container(M, span):
